@@ -69,40 +69,41 @@ def snip_package(rng, u, k, tags):
     name = "Pkg%s_%d" % (u, k)
     w = _w(rng)
     nconst = rng.randint(1, 3)
-    consts = ["C%d" % i for i in range(nconst)]
+    q = "%s_%d" % (u, k)          # every exported name is unique project-wide (wildcard imports never clash)
+    consts = ["C%s_%d" % (q, i) for i in range(nconst)]
     body = ""
     for i, c in enumerate(consts):
         body += _doc(rng, "    ") + "    const %s: u32 = %d;\n" % (c, rng.choice([1, 2, 3, 8, w]))
     tags.update(["package", "const"])
-    exp = {"name": name, "consts": consts, "struct": None, "enum": None, "func": None, "type": None, "union": None}
+    exp = {"name": name, "u": u, "consts": consts, "struct": None, "enum": None, "func": None, "type": None, "union": None}
     if rng.random() < 0.8:
-        exp["struct"] = ("St%d" % k, ["fa", "fb"])
-        body += _doc(rng, "    ") + "    struct St%d {\n        fa: logic<%s>,\n%s        fb: bit<%d>,\n    }\n" % (
-            k, consts[0], _comment(rng, "        "), _w(rng))
+        exp["struct"] = ("St%s" % q, ["fa", "fb"])
+        body += _doc(rng, "    ") + "    struct St%s {\n        fa: logic<%s>,\n%s        fb: logic<%d>,\n    }\n" % (
+            q, consts[0], _comment(rng, "        "), _w(rng))
         tags.update(["struct", "struct_member"])
     if rng.random() < 0.8:
-        mem = ["M%d_%d" % (k, i) for i in range(rng.randint(1, 4))]
-        exp["enum"] = ("En%d" % k, mem)
+        mem = ["M%s_%d" % (q, i) for i in range(rng.randint(1, 4))]
+        exp["enum"] = ("En%s" % q, mem)
         enc = rng.choice(["", "    #[enum_encoding(onehot)]\n", "    #[enum_encoding(gray)]\n"]) if rng.random() < 0.3 else ""
         explicit = rng.random() < 0.3 and not enc
-        body += enc + "    enum En%d%s {\n" % (k, ": logic<%d>" % max(2, len(mem)) if rng.random() < 0.5 or explicit else "")
+        body += enc + "    enum En%s%s {\n" % (q, ": logic<%d>" % max(2, len(mem)) if rng.random() < 0.5 or explicit else "")
         for i, m in enumerate(mem):
             body += _doc(rng, "        ") + "        %s%s,\n" % (m, " = %d" % i if explicit else "")
         body += "    }\n"
         tags.update(["enum", "enum_member"] + (["attribute"] if enc else []))
     if rng.random() < 0.4:
-        exp["union"] = "Un%d" % k
-        body += "    union Un%d {\n        ua: logic<8>,\n        ub: bit<8>,\n    }\n" % k
+        exp["union"] = "Un%s" % q
+        body += "    union Un%s {\n        ua: logic<8>,\n        ub: logic<8>,\n    }\n" % q
         tags.update(["union", "union_member"])
     if rng.random() < 0.7:
-        exp["type"] = "Ty%d" % k
-        body += "    type Ty%d = %s;\n" % (k, rng.choice(["logic<%d>" % _w(rng), "bit<%s>" % consts[0], "logic<4, 2>", "logic<8> [2]"]))
+        exp["type"] = "Ty%s" % q
+        body += "    type Ty%s = %s;\n" % (q, rng.choice(["logic<%d>" % _w(rng), "bit<%s>" % consts[0], "logic<4, 2>", "logic<8> [2]"]))
         tags.add("typedef")
     if rng.random() < 0.7:
         fw = _w(rng)
-        exp["func"] = ("fn%d" % k, fw)
-        body += _doc(rng, "    ") + "    function fn%d (\n        a: input logic<%d>,\n    ) -> logic<%d> {\n        return a + %s;\n    }\n" % (
-            k, fw, fw, consts[0])
+        exp["func"] = ("fn%s" % q, fw)
+        body += _doc(rng, "    ") + "    function fn%s (\n        a: input logic<%d>,\n    ) -> logic<%d> {\n        return a + %s;\n    }\n" % (
+            q, fw, fw, consts[0])
         tags.update(["function", "function_arg"])
     text = _doc(rng) + "%spackage %s {\n%s}\n" % (rng.choice(["", "pub "]), name, body)
     return text, ("package", exp)
@@ -205,10 +206,12 @@ def snip_user(rng, u, k, avail, tags):
     def fresh(p):
         nonlocal n
         n += 1
-        return "%s%d" % (p, n)
+        return "%s_%d" % (p, n)       # the underscore keeps clear of keywords (i8, u32, f64 ...)
 
     for p in rng.sample(pkgs, min(len(pkgs), rng.randint(0, 2))):
         style = rng.choice(["wild", "item", "qualified", "header"])
+        if style == "header" and p.get("u") == u:
+            style = "wild"      # a file-scope import may not precede the package's definition in the same file
         if style == "wild":
             body += "    import %s::*;\n" % p["name"]
             c = p["consts"][0]
@@ -356,6 +359,7 @@ def gen_file(rng, uid, avail=None, nitems=None):
     tags = set()
     exports = {}
     parts = []
+    users = []
     nitems = nitems or rng.randint(2, 5)
     k = 0
     for _ in range(nitems):
@@ -366,11 +370,15 @@ def gen_file(rng, uid, avail=None, nitems=None):
             avail.setdefault(kind, []).append(exp)
             parts.append(text)
         else:
-            parts.append(snip_user(rng, uid, k, avail, tags))
+            users.append(snip_user(rng, uid, k, avail, tags))
     if rng.random() < 0.5:
         k += 1
-        parts.append(snip_toplevel_misc(rng, uid, k, tags))
-    rng.shuffle(parts)          # declaration order inside a file is free in Veryl
+        users.append(snip_toplevel_misc(rng, uid, k, tags))
+    # inside one file a package / module must be defined before it is referred to
+    # (referring_before_definition); across files there is no such rule
+    rng.shuffle(parts)
+    rng.shuffle(users)
+    parts = parts + users
     # file-scope imports must come first
     heads = []
     rest = []
